@@ -14,7 +14,7 @@ import (
 
 // API variants of the one observation "does input idx verify": every way a caller can drive the exported
 // Engine must give the verdict of NewEngine(...).Execute() with fresh arguments.
-const nVariants = 9
+const nVariants = 10
 
 func verdict(err error) string {
 	if err != nil {
@@ -137,6 +137,22 @@ func (s *spend) runVariant(v int) string {
 			return "incons:mutated-input"
 		}
 		return check("value", r)
+	case 9: // a signature cached for this transaction must not validate a different transaction
+		sc := txscript.NewSigCache(50)
+		r := exec(mk(sc, txscript.NewTxSigHashes(s.tx, f), f))
+		t2 := s.tx.Copy()
+		t2.LockTime ^= 1
+		if len(t2.TxOut) > 0 {
+			t2.TxOut[0].Value ^= 1
+		}
+		s2 := &spend{flags: s.flags, tx: t2, idx: s.idx, spent: s.spent}
+		f2 := s2.fetcher()
+		fresh := s2.runBtcd()
+		vm, err := txscript.NewEngine(prev.PkScript, t2, s.idx, s.flags, sc, txscript.NewTxSigHashes(t2, f2), prev.Value, f2)
+		if got := exec(vm, err); got != fresh {
+			return "incons:cache-poison:" + got + "/" + fresh
+		}
+		return check("cache-other-tx", r)
 	default: // nil hash cache and nil signature cache with the engine executed twice from scratch
 		a := exec(mk(nil, nil, f))
 		b := exec(mk(nil, nil, f))
